@@ -36,6 +36,7 @@ func runC06(c *core.Ctx) {
 	c.Rule("R9", "push/pull sends the stored value with its tombstones, freshly encoded", 2)
 	c.Rule("R10", "every queued update is consumed by its key's worker only; watcher lists are edited by append / slice-out only", 2)
 	c.Rule("R11", "a watcher's wake-up is consumed only by the select that reads the value next (no notification is dropped after the read)", 2)
+	c.Rule("R12", "token conflicts are resolved by a symmetric rule of the two holders, so replicas holding the same entries agree on ownership whatever their map iteration order (shared with C05.R3)", 2)
 	c.Rule("R7", "ring Mergeables accept an incoming entry by the same LWW table whatever the origin (local CAS or gossip)", 3)
 	pkg := c.Prog.Pkg("kv/memberlist")
 	if pkg == nil {
@@ -53,6 +54,7 @@ func runC06(c *core.Ctx) {
 	c04LocalState(c, "R9")
 	c06Queues(c, pkg)
 	c06Wakeups(c, pkg)
+	c05WinnerAs(c, "R12")
 }
 
 // c06Invalidates (R6): a queued broadcast is dropped in favour of a newer one only when that one is for
@@ -690,7 +692,9 @@ func thoroughC06(c *core.Ctx) {
 // discards the queue; (b) the watcher lists are edited by appending a channel or slicing the matching
 // one out — no element of such a list is overwritten in place (a live watcher would silently stop
 // being notified).
-func c06Queues(c *core.Ctx, pkg *packages.Package) {
+func c06Queues(c *core.Ctx, pkg *packages.Package) { c06QueuesAs(c, pkg, "R10") }
+
+func c06QueuesAs(c *core.Ctx, pkg *packages.Package, R string) {
 	isUpd := func(t types.Type) bool {
 		ch, ok := t.Underlying().(*types.Chan)
 		return ok && strings.HasSuffix(ch.Elem().String(), "memberlist.valueUpdate")
@@ -740,8 +744,8 @@ func c06Queues(c *core.Ctx, pkg *packages.Package) {
 			})
 		}
 	}
-	c.Check(len(recvSites) == 0 && nRecv >= 1, "R10", "queue:receivers", pos, fmt.Sprintf("%d receive sites on worker channels, all inside processValueUpdate; others: %v", nRecv, recvSites), nRecv)
-	c.Check(len(stores) == 0, "R10", "watchers:no-element-store", pos, fmt.Sprintf("no element of a watcher list ([]chan string) is overwritten in place: %v", stores), 1)
+	c.Check(len(recvSites) == 0 && nRecv >= 1, R, "queue:receivers", pos, fmt.Sprintf("%d receive sites on worker channels, all inside processValueUpdate; others: %v", nRecv, recvSites), nRecv)
+	c.Check(len(stores) == 0, R, "watchers:no-element-store", pos, fmt.Sprintf("no element of a watcher list ([]chan string) is overwritten in place: %v", stores), 1)
 }
 
 // c06Wakeups (R11): WatchKey / WatchPrefix own a buffered channel that collects "changed" notifications.
